@@ -5,8 +5,10 @@
 // definition the theorems are re-checked against).
 //
 // Semantics of the translation (the trusted part, DESIGN section 3):
-//   - every Go integer type is Lean's `Int` (ideal integers); conversions between integer types are the
-//     identity.  This is exact as long as no intermediate value leaves its Go type, which is what the model's
+//   - every Go integer type is Lean's `Int`.  32-BIT ARITHMETIC IS EXACT: `+ - * <<` on int32 operands and narrowing
+//     conversions to int32 are wrapped in `Go.w32` (two's-complement reduction to 32 bits), so an int32 intermediate
+//     that overflows (`int64(a << b)` with a, b int32) is visible in the translation.  64-bit arithmetic is ideal and
+//     widening conversions are the identity.  This is exact as long as no intermediate value leaves its Go type, which is what the model's
 //     preconditions (values below 2^62) guarantee; overflow behaviour is NOT what these definitions describe.
 //   - `x >> k`, `x << k` are `x >>> k.toNat`, `x <<< k.toNat` (arithmetic shift), `|` and `&` are the
 //     two's-complement operations on 64 bits (`Go.or`, `Go.and` in Gen/Prelude.lean), `/` and `%` truncate.
@@ -70,6 +72,7 @@ type translator struct {
 	muts  []string // pointer parameters the function assigns through, in declaration order
 	isErr bool     // the single result is `error`
 	rbool []bool   // explicit results that are bool
+	gty   map[string]string // Go integer type of every local variable / parameter (int32 arithmetic wraps, see goType)
 }
 
 func leanType(e ast.Expr, structs map[string]*ast.StructType) string {
@@ -173,19 +176,25 @@ func (t *translator) expr(e ast.Expr, sc scope) string {
 		return "(Go.index " + t.expr(x.X, sc) + " " + t.expr(x.Index, sc) + ")"
 	case *ast.BinaryExpr:
 		a, b := t.expr(x.X, sc), t.expr(x.Y, sc)
+		w := func(s string) string {
+			if is32(t.goType(x, sc)) {
+				return "(Go.w32 " + s + ")" // 32-bit arithmetic wraps
+			}
+			return s
+		}
 		switch x.Op {
 		case token.ADD:
-			return "(" + a + " + " + b + ")"
+			return w("(" + a + " + " + b + ")")
 		case token.SUB:
-			return "(" + a + " - " + b + ")"
+			return w("(" + a + " - " + b + ")")
 		case token.MUL:
-			return "(" + a + " * " + b + ")"
+			return w("(" + a + " * " + b + ")")
 		case token.QUO:
 			return "(Int.tdiv " + a + " " + b + ")"
 		case token.REM:
 			return "(Int.tmod " + a + " " + b + ")"
 		case token.SHL:
-			return "(" + a + " <<< Int.toNat " + b + ")"
+			return w("(" + a + " <<< Int.toNat " + b + ")")
 		case token.SHR:
 			return "(" + a + " >>> Int.toNat " + b + ")"
 		case token.OR:
@@ -196,7 +205,12 @@ func (t *translator) expr(e ast.Expr, sc scope) string {
 	case *ast.CallExpr:
 		if id, ok := x.Fun.(*ast.Ident); ok {
 			if intTypes[id.Name] && len(x.Args) == 1 {
-				return t.expr(x.Args[0], sc) // integer conversion: identity on ideal integers
+				if is32(id.Name) && !is32(t.goType(x.Args[0], sc)) {
+					if _, lit := x.Args[0].(*ast.BasicLit); !lit {
+						return "(Go.w32 " + t.expr(x.Args[0], sc) + ")" // narrowing conversion
+					}
+				}
+				return t.expr(x.Args[0], sc) // widening or same-width conversion: the value is kept
 			}
 			if id.Name == "len" && len(x.Args) == 1 {
 				return "(Int.ofNat (List.length " + t.expr(x.Args[0], sc) + "))"
@@ -254,6 +268,92 @@ func (t *translator) typeOf(e ast.Expr, sc scope) string {
 	}
 	return "Int"
 }
+
+// goTypeName: the Go integer type an AST type expression names ("" if it is not one)
+func goTypeName(e ast.Expr) string {
+	switch t := e.(type) {
+	case *ast.Ident:
+		if intTypes[t.Name] {
+			return t.Name
+		}
+	case *ast.SelectorExpr:
+		if id, ok := t.X.(*ast.Ident); ok && id.Name == "time" && t.Sel.Name == "Duration" {
+			return "int64"
+		}
+	}
+	return ""
+}
+
+// goType: the Go integer type of an expression; "" for untyped constants and for what is not an integer.
+// Only 32-bit arithmetic is translated with its wrap-around (Go.w32): an int32 intermediate result is where a
+// realistic overflow hides (`int64(a << b)` with a, b int32); 64-bit arithmetic stays ideal under the models' preconditions.
+func (t *translator) goType(e ast.Expr, sc scope) string {
+	switch x := e.(type) {
+	case *ast.ParenExpr:
+		return t.goType(x.X, sc)
+	case *ast.Ident:
+		return t.gty[x.Name]
+	case *ast.SelectorExpr:
+		bt := t.typeOf(x.X, sc)
+		if st, ok := t.structs[bt]; ok {
+			for _, f := range st.Fields.List {
+				for _, n := range f.Names {
+					if n.Name == x.Sel.Name {
+						return goTypeName(f.Type)
+					}
+				}
+			}
+		}
+	case *ast.UnaryExpr:
+		return t.goType(x.X, sc)
+	case *ast.IndexExpr:
+		if sel, ok := x.X.(*ast.SelectorExpr); ok {
+			bt := t.typeOf(sel.X, sc)
+			if st, ok := t.structs[bt]; ok {
+				for _, f := range st.Fields.List {
+					for _, n := range f.Names {
+						if n.Name == sel.Sel.Name {
+							if at, ok := f.Type.(*ast.ArrayType); ok {
+								return goTypeName(at.Elt)
+							}
+						}
+					}
+				}
+			}
+		}
+	case *ast.BinaryExpr:
+		switch x.Op {
+		case token.SHL, token.SHR:
+			return t.goType(x.X, sc)
+		case token.ADD, token.SUB, token.MUL, token.QUO, token.REM, token.OR, token.AND:
+			if a := t.goType(x.X, sc); a != "" {
+				return a
+			}
+			return t.goType(x.Y, sc)
+		}
+	case *ast.CallExpr:
+		if id, ok := x.Fun.(*ast.Ident); ok {
+			if intTypes[id.Name] {
+				return id.Name
+			}
+			if id.Name == "len" {
+				return "int"
+			}
+			if fd, ok := t.funcs[id.Name]; ok && fd.Type.Results != nil && len(fd.Type.Results.List) > 0 {
+				return goTypeName(fd.Type.Results.List[0].Type)
+			}
+		}
+		if sel, ok := x.Fun.(*ast.SelectorExpr); ok {
+			k := t.key(t.typeOf(sel.X, sc), sel.Sel.Name)
+			if fd, ok := t.funcs[k]; ok && fd.Type.Results != nil && len(fd.Type.Results.List) > 0 {
+				return goTypeName(fd.Type.Results.List[0].Type)
+			}
+		}
+	}
+	return ""
+}
+
+func is32(ty string) bool { return ty == "int32" || ty == "uint32" }
 
 // typeOfExpr: the Lean type of an expression (struct values and Bool are tracked, everything else is Int)
 func (t *translator) typeOfExpr(e ast.Expr, sc scope) string {
@@ -511,8 +611,13 @@ func (t *translator) stmts(list []ast.Stmt, sc scope, fall func(sc scope) string
 				}
 				out += "let " + lname(n.Name) + " : Int := " + val + ";\n  "
 			}
-			for _, n := range vs.Names {
+			for i, n := range vs.Names {
 				sc[n.Name] = "Int"
+				if vs.Type != nil {
+					t.gty[n.Name] = goTypeName(vs.Type)
+				} else if i < len(vs.Values) {
+					t.gty[n.Name] = t.goType(vs.Values[i], sc)
+				}
 			}
 		}
 		return out + t.stmts(rest, sc, fall)
@@ -531,6 +636,7 @@ func (t *translator) stmts(list []ast.Stmt, sc scope, fall func(sc scope) string
 			}
 			rhs = t.expr(x.Rhs[0], sc)
 			nsc[id.Name] = t.typeOfExpr(x.Rhs[0], sc)
+			t.gty[id.Name] = t.goType(x.Rhs[0], sc)
 		case token.ASSIGN:
 			if isIdent {
 				if _, ok := sc[id.Name]; !ok {
@@ -717,9 +823,9 @@ func (t *translator) need(k string) {
 		return
 	}
 	// save the per-function state, translate the callee, restore
-	fn, aux, nloop, named, muts, isErr, rbool := t.fn, t.aux, t.nloop, t.named, t.muts, t.isErr, t.rbool
+	fn, aux, nloop, named, muts, isErr, rbool, gty := t.fn, t.aux, t.nloop, t.named, t.muts, t.isErr, t.rbool, t.gty
 	t.function(k)
-	t.fn, t.aux, t.nloop, t.named, t.muts, t.isErr, t.rbool = fn, aux, nloop, named, muts, isErr, rbool
+	t.fn, t.aux, t.nloop, t.named, t.muts, t.isErr, t.rbool, t.gty = fn, aux, nloop, named, muts, isErr, rbool, gty
 	if msg, bad := t.failed[k]; bad {
 		bail(token.NoPos, "depends on %s, which was not translated (%s)", k, msg)
 	}
@@ -732,6 +838,7 @@ func (t *translator) function(k string) {
 	t.done[k] = true
 	fd := t.funcs[k]
 	t.fn, t.aux, t.nloop, t.named, t.muts, t.isErr, t.rbool = k, nil, 0, nil, nil, false, nil
+	t.gty = map[string]string{}
 	defer func() {
 		if r := recover(); r != nil {
 			u, ok := r.(unsupported)
@@ -765,6 +872,7 @@ func (t *translator) function(k string) {
 		}
 		for _, n := range p.Names {
 			sc[n.Name] = ty
+			t.gty[n.Name] = goTypeName(p.Type)
 			binders = append(binders, fmt.Sprintf("(%s : %s)", lname(n.Name), ty))
 			if isPtr(p.Type) {
 				ptrs = append(ptrs, n.Name)
@@ -815,6 +923,7 @@ func (t *translator) function(k string) {
 			for _, n := range r.Names {
 				t.named = append(t.named, n.Name)
 				sc[n.Name] = ty
+				t.gty[n.Name] = goTypeName(r.Type)
 				zero := "0"
 				if ty == "Bool" {
 					zero = "false"
@@ -865,6 +974,7 @@ type codeGroup struct {
 func (t *translator) loopSnippets(fd *ast.FuncDecl) {
 	k := fd.Name.Name
 	t.fn, t.aux, t.nloop, t.named, t.muts, t.isErr, t.rbool = k, nil, 0, nil, nil, false, nil
+	t.gty = map[string]string{} // the snippet's variables are untyped here: its arithmetic stays ideal
 	defer func() {
 		if r := recover(); r != nil {
 			u, ok := r.(unsupported)
